@@ -524,7 +524,45 @@ class StmtMixin:
             names.update(extra)
         return SpecEnv(st, names, self.entry_state, self.entry_names)
 
+    def check_carried_kinds(self, st: State, ls):
+        """At a back edge the loop-carried locals must still fit the kinds they were havoced with."""
+        hk = st.ghost.get("$havoc_kinds") or {}
+        for n, kind in hk.items():
+            v = st.locals.get(n)
+            if v is None or isinstance(v, (VPy, VExc)):
+                continue
+            if not self.kind_fits(v, kind):
+                raise Unsupported(f"loop-carried local {n!r} changes kind ({v.kind!r} vs havoc kind {kind!r}): "
+                                  f"declare local_kinds in the loop spec")
+
+    def kind_fits(self, v: Value, kind: Kind) -> bool:
+        if isinstance(kind, KOpt):
+            if v is VNone:
+                return True
+            if isinstance(v, VOpt):
+                return self.kind_fits(v.inner, kind.inner)
+            return self.kind_fits(v, kind.inner)
+        if v is VNone:
+            return isinstance(kind, KNone)
+        if isinstance(v, VOpt):
+            return False
+        if isinstance(kind, KRef):
+            if not isinstance(v, VRef):
+                return False
+            ci, ck = self.try_cls(v.cls), self.try_cls(kind.cls.rstrip("!"))
+            return ci is None or ck is None or ci.is_subclass_of(ck)
+        if isinstance(kind, KPrim):
+            return hasattr(v, "t") and v.t.sort == kind.sort or (kind is K_INT and isinstance(v, VBool))
+        if isinstance(kind, (KList, KDeque, KSet, KDict)):
+            return type(v).__name__[1:] == type(kind).__name__[1:] or isinstance(v, VList) and isinstance(kind, KList)
+        if isinstance(kind, KTuple):
+            return isinstance(v, VTuple) and len(v.items) == len(kind.items) and \
+                all(self.kind_fits(a, b) for a, b in zip(v.items, kind.items))
+        return True
+
     def check_invs(self, st, ls, kind, extra=None) -> State:
+        if kind == "inv_pres":
+            self.check_carried_kinds(st, ls)
         env = self.inv_env(st, ls, extra)
         self.apply_hints(st, ls.hints, env)
         for cl in ls.invariants:
@@ -543,12 +581,22 @@ class StmtMixin:
     def havoc_for_loop(self, st: State, ls, body) -> State:
         st = st.copy()
         names = ls.havoc_locals if ls.havoc_locals is not None else sorted(assigned_names(body))
+        st.ghost = dict(st.ghost)
+        hk = {}
         for n in names:
-            if n in st.locals:
+            if n in ls.local_kinds:
+                st.locals[n] = self.fresh_value(st, ls.local_kinds[n], n)
+                hk[n] = ls.local_kinds[n]
+            elif n in st.locals:
                 v = st.locals[n]
                 if isinstance(v, (VPy, VExc)):
                     continue
+                if v is VNone:
+                    raise Unsupported(f"loop-carried local {n!r} is None at the loop entry (line "
+                                      f"{getattr(body[0], 'lineno', '?')}): declare its kind in the loop spec")
                 st.locals[n] = self.fresh_value(st, v.kind, n)
+                hk[n] = v.kind
+        st.ghost["$havoc_kinds"] = hk
         env = self.inv_env(st, ls)
         st = self.havoc_locations(st, ls.modifies, env)
         return st
